@@ -71,6 +71,7 @@ type Ctx struct {
 	named         map[string]Term // hash-consing table of named terms
 	refDefs       map[string]string // definitions of named reference terms
 	allocMemo     map[string]bool
+	refGE         map[string]string // fresh allocator position -> the earlier position it is assumed to be at or above
 	brk0          string
 	declBytes     int
 	timeoutFactor float64 // contract option `opt slow=<factor>`: solver time multiplier for a known-heavy function
@@ -379,6 +380,14 @@ func (c *Ctx) Name(hint string, t Term) Term {
 // AllocatedHere reports whether the reference term s is, syntactically, the bump pointer brk0 advanced a
 // non-negative number of times (the engine only ever advances brk by 1 after assuming it is below 2^32-16): such a
 // reference denotes an object allocated by the function under verification, never one that existed at entry.
+// NoteRefGE records that the fresh reference constant `hi` was introduced under the assumption hi >= lo.
+func (c *Ctx) NoteRefGE(hi, lo string) {
+	if c.refGE == nil {
+		c.refGE = map[string]string{}
+	}
+	c.refGE[hi] = lo
+}
+
 func (c *Ctx) AllocatedHere(s string) bool {
 	if s == c.brk0 && s != "" {
 		return true
@@ -392,6 +401,9 @@ func (c *Ctx) AllocatedHere(s string) bool {
 	res := false
 	if d, ok := c.refDefs[s]; ok {
 		res = c.AllocatedHere(d)
+	} else if lo, ok := c.refGE[s]; ok {
+		// a fresh allocator position assumed to be at or above an earlier one (after a call or a loop)
+		res = c.AllocatedHere(lo)
 	} else if strings.HasPrefix(s, "(ite ") {
 		if p := splitArgs(s); len(p) == 4 {
 			res = c.AllocatedHere(p[2]) && c.AllocatedHere(p[3])
